@@ -73,11 +73,19 @@ func genRawSession(r *rng, t *tree, n int) []creq {
 		return files[r.intn(len(files))]
 	}
 	opened := false
+	mutated := false // once names were added or removed the OS enumeration order is no longer the recorded one
 	for len(reqs) < n {
-		switch k := r.intn(100); {
+		k := r.intn(100)
+		if k >= 68 && (k < 76 || k >= 88) {
+			mutated = true
+		}
+		switch {
 		case k < 12:
 			reqs = append(reqs, creq{op: opOpenDir, path: dirs[r.intn(len(dirs))]})
 		case k < 24:
+			if mutated {
+				continue
+			}
 			reqs = append(reqs, creq{op: opReadDirEntry})
 		case k < 40:
 			reqs = append(reqs, creq{op: opOpenFile, path: pickF()})
